@@ -626,7 +626,7 @@ pub fn run(tier: Tier) -> i32 {
     let mut ctx = Ctx::new("C17", tier);
     ctx.assume("randomly generated definitions are checked at token level only (compiling each would need minutes); the compiled family covers the behavioural clauses");
     ctx.assume("reserved header keys (status-message, content-type) are not generated as user headers");
-    ctx.run_part(Definitions, tier.pick(10_000, 200_000));
-    ctx.run_part(Calls, tier.pick(12_000, 300_000));
+    ctx.run_part(Definitions, tier.pick(10_000, 800_000));
+    ctx.run_part(Calls, tier.pick(12_000, 1_200_000));
     ctx.finish()
 }
